@@ -413,7 +413,7 @@ type BytesFrameReader struct {
 func NewBytesFrameReader(r io.Reader) (*BytesFrameReader, error) {
 	var version [2]byte
 
-	switch _, err := r.Read(version[:]); {
+	switch _, err := io.ReadFull(r, version[:]); {
 	case errors.Is(err, io.EOF):
 	case err != nil:
 		return nil, errors.Wrap(err, "version")
